@@ -334,6 +334,15 @@ func solveAll(e *Engine, obs []*Obligation, tier int, timeout time.Duration) {
 			continue
 		}
 		roots := append(append([]*Term{}, ob.Hyps...), ob.Goal)
+		hyps, goal := ob.Hyps, ob.Goal
+		lowered := ""
+		if th := theoryOf(roots); th == "lia" || th == "nia" {
+			if nh, ng, w, ok, _ := e.st.lowerIntToBV(ob.Hyps, ob.Goal); ok {
+				hyps, goal = nh, ng
+				roots = append(append([]*Term{}, hyps...), goal)
+				lowered = fmt.Sprintf("bv (integer specification lowered exactly to %d-bit two's complement)", w)
+			}
+		}
 		ob.Size = Size(roots...)
 		var msyms []*Term
 		for _, s := range Syms(roots...) {
@@ -341,7 +350,10 @@ func solveAll(e *Engine, obs []*Obligation, tier int, timeout time.Duration) {
 				msyms = append(msyms, s)
 			}
 		}
-		jobs = append(jobs, job{ob, e.st.buildQuery(ob.Hyps, ob.Goal, true, msyms), theoryOf(roots)})
+		jobs = append(jobs, job{ob, e.st.buildQuery(hyps, goal, true, msyms), theoryOf(roots)})
+		if lowered != "" {
+			ob.Lowered = lowered
+		}
 	}
 	for _, j := range jobs {
 		wg.Add(1)
@@ -356,6 +368,9 @@ func solveAll(e *Engine, obs []*Obligation, tier int, timeout time.Duration) {
 			j.ob.Time = r.Time
 			j.ob.Model = r.Model
 			j.ob.Theory = j.th
+			if j.ob.Lowered != "" {
+				j.ob.Theory = j.ob.Lowered
+			}
 			if r.Verdict == "error" || r.Verdict == "unknown" {
 				j.ob.Msg += " [solver: " + firstLines(r.Raw, 2) + "]"
 			}
